@@ -686,3 +686,41 @@ Lemma open_write_lemma : forall c bytes, closed c = false ->
 Proof.
   intros c bytes Hc. unfold cwrite, ready. rewrite Hc. cbn. auto.
 Qed.
+
+(* ---------------- the hypotheses of the end-to-end theorem are satisfiable ---------------- *)
+
+Lemma toy_codeword : forall l t, N.of_nat (length t) = l -> codeword toy_complete (l :: t).
+Proof.
+  intros l t H. split; [discriminate|]. split.
+  - cbn. rewrite H. apply N.eqb_refl.
+  - intros p s Hps Hp Hs. destruct p as [|a p]; [congruence|].
+    cbn in Hps. injection Hps as Ha Ht. subst a. cbn.
+    apply N.eqb_neq. intro Heq. rewrite <- H in Heq. apply Nat2N.inj in Heq.
+    rewrite Ht, app_length in Heq. destruct s; [congruence|cbn in Heq; lia].
+Qed.
+
+Definition toy_encQ (q : nat * N) : list (list N) := [[1%N; N.of_nat (fst q)]; [1%N; snd q]].
+Definition toy_decQ (fr : list (list N)) : option (nat * N) :=
+  match fr with [[_; s]; [_; a]] => Some (N.to_nat s, a) | _ => None end.
+Definition toy_encR (p : nat * (N + N)) : list (list N) :=
+  [[1%N; N.of_nat (fst p)]; match snd p with inl r => [2%N; 0%N; r] | inr e => [2%N; 1%N; e] end].
+Definition toy_decR (fr : list (list N)) : option (nat * (N + N)) :=
+  match fr with
+  | [[_; s]; [_; tag; x]] => Some (N.to_nat s, if N.eqb tag 0 then inl x else inr x)
+  | _ => None
+  end.
+
+Lemma toy_typed_layer :
+  (forall q, conforms toy_complete (shape_of GoRpc) (toy_encQ q) /\ toy_decQ (toy_encQ q) = Some q) /\
+  (forall p, conforms toy_complete (shape_of GoRpc) (toy_encR p) /\ toy_decR (toy_encR p) = Some p).
+Proof.
+  split.
+  - intros [s a]. split.
+    + unfold conforms, toy_encQ, shape_of. cbn [fst snd].
+      constructor; [apply toy_codeword; reflexivity|]. constructor; [apply toy_codeword; reflexivity|constructor].
+    + cbn. now rewrite Nat2N.id.
+  - intros [s [r|e]]; (split;
+      [unfold conforms, toy_encR, shape_of; cbn [fst snd];
+       constructor; [apply toy_codeword; reflexivity|]; constructor; [apply toy_codeword; reflexivity|constructor]
+      |cbn; now rewrite Nat2N.id]).
+Qed.
